@@ -39,6 +39,16 @@ Fixpoint perms {A} (l : list A) : list (list A) :=
   | x :: r => flat_map (insert_all x) (perms r)
   end.
 
+(* all orders of up to four files; for more, the rotations and their reversals *)
+Fixpoint rotations_from {A} (n : nat) (l : list A) : list (list A) :=
+  match n with
+  | O => []
+  | S k => l :: match l with [] => [] | x :: r => rotations_from k (r ++ [x]) end
+  end.
+Definition orders {A} (l : list A) : list (list A) :=
+  if Nat.leb (length l) 4 then perms l
+  else let rs := rotations_from (length l) l in rs ++ map (@rev A) rs.
+
 Definition check_export (D : desc) (files : list str) (cls_export : N) (first : list (ref * root)) : bool :=
   match files_of D files with
   | None => false
@@ -53,7 +63,7 @@ Definition check_export (D : desc) (files : list str) (cls_export : N) (first : 
            end
        | _ => false
        end)
-      || (negb (N.eqb cls_export 0) && existsb (fun p => N.eqb cls_export (cls (reflect D p))) (perms fs))
+      || (negb (N.eqb cls_export 0) && existsb (fun p => N.eqb cls_export (cls (reflect D p))) (orders fs))
   end.
 
 Definition exported (st : sset) : list (ref * root) :=
